@@ -280,6 +280,28 @@ def _take(model: Model, T: RuleResult):
     _mode_normalisation(model, sy, T)
 
 
+def _canonical_mode(model: Model, value: str) -> Optional[str]:
+    """the spelling of `mode` that reaches symeig's dispatch for a caller's spelling (abstract run of symeig's own normalisation
+    statements); None when they cannot be interpreted"""
+    from ..domains.dictsem import DictInterp, Unsupported, Raised
+    sy = model.func(PUB, "symeig")
+    writers = [st for st in sy.node.body if any(isinstance(n, ast.Name) and n.id == "mode" and isinstance(n.ctx, ast.Store) for n in ast.walk(st))]
+    env0 = {}
+    for st in model.module(PUB).tree.body:
+        if isinstance(st, ast.Assign) and len(st.targets) == 1 and isinstance(st.targets[0], ast.Name) and isinstance(st.value, ast.Dict):
+            try:
+                env0[st.targets[0].id] = DictInterp({}).ev(st.value)
+            except (Unsupported, Raised):
+                pass
+    it = DictInterp(dict(env0, mode=value))
+    try:
+        it.run(writers)
+    except (Unsupported, Raised):
+        return None
+    got = it.env.get("mode")
+    return got if isinstance(got, str) else None
+
+
 def _mode_normalisation(model: Model, sy: FuncInfo, T: RuleResult):
     """The statements of symeig that (re)bind `mode` are evaluated abstractly on probe spellings (string constants only; nothing of the
     repository runs): whatever the spelling - if chain, alias table, conditional expression - 'LOWEST' must arrive as 'lowest' and
@@ -589,14 +611,23 @@ def _svd(model: Model, S: RuleResult):
     if len(ps) < 5 or kw is None:
         raise AnchorError("C05-S: svd no longer has the signature (A, k, mode, bck_options, method, **fwd_options)")
     names = dict(A=pA, k=ps[1], mode=ps[2], bck=ps[3], method=ps[4], fwd=kw)
-    env0 = {pA: tt.sym("A")}
+    mod = model.module(PUB)
+    functions = {n_: mod.functions[n_].node for n_ in ("symeig", "lsymeig", "usymeig") if n_ in mod.functions}
     shape = ("op", "attr.shape", tt.sym("A"))
     m_t, n_t = ("op", "index", shape, ("op", "slice", "-2")), ("op", "index", shape, ("op", "slice", "-1"))
 
     def relax(t):
-        """the positive floor that protects the division is a tolerance, not part of the formula"""
+        """the positive floor that protects the division is a tolerance, not part of the formula; a constant `mode` handed to symeig
+        is replaced by the spelling symeig itself dispatches on ('uppermost' and 'uppest' are one request)"""
         if not isinstance(t, tuple):
             return t
+        if len(t) == 3 and t[:2] == ("op", "arg.mode") and isinstance(t[2], tuple) and t[2][:2] == ("op", "const"):
+            try:
+                v_ = ast.literal_eval(t[2][2])
+            except Exception:
+                v_ = None
+            c_ = _canonical_mode(model, v_) if isinstance(v_, str) else None
+            return ("op", "arg.mode", ("op", "const", repr(c_))) if c_ is not None else t
         if len(t) == 4 and t[0] == "op" and t[1] == "clamp" and isinstance(t[3], tuple) and t[3][:2] == ("op", "kw.min") \
                 and t[3][2][0] == "num" and t[3][2][1] > 0:
             return ("op", "clamp+", relax(t[2]))
@@ -605,7 +636,7 @@ def _svd(model: Model, S: RuleResult):
     class _Need(Exception):
         pass
 
-    def run_case(wide, choices):
+    def run_case(wide, choices, env0):
         dbg_tests = []
 
         def decide(term, node):
@@ -624,14 +655,15 @@ def _svd(model: Model, S: RuleResult):
             if key not in choices:
                 raise _Need(key)
             return choices[key]
-        ev = tt.TermEval(env0, decide)
+        ev = tt.TermEval(env0, decide, functions)
         ev.run([s_ for s_ in f.node.body if not (isinstance(s_, ast.Expr) and isinstance(s_.value, ast.Constant))])
         return ev, dbg_tests
 
     rets = [r for r in own_nodes(f.node) if isinstance(r, ast.Return)]
-    for wide in (True, False):
-        case = "m < n" if wide else "m >= n"
-        spec = tt.TermEval(env0)
+    for wide, probe in [(w_, p_) for w_ in (True, False) for p_ in ("lowest", "uppest", "uppermost", "LOWEST")]:
+        case = "%s, mode=%r" % ("m < n" if wide else "m >= n", probe)
+        env0 = {pA: tt.sym("A"), names["mode"]: ("op", "const", repr(probe))}
+        spec = tt.TermEval(env0, None, functions)
         pending = [dict()]
         outcomes = []
         try:
@@ -641,7 +673,7 @@ def _svd(model: Model, S: RuleResult):
                 if len(ch) > 3:
                     raise tt.Unsupported("more than three tests the terms do not decide")
                 try:
-                    ev, dbg_tests = run_case(wide, ch)
+                    ev, dbg_tests = run_case(wide, ch, env0)
                 except _Need as need:
                     # a test svd's contract does not mention (the specification has none): both outcomes must give the specified result
                     pending.append(dict(ch, **{str(need): True}))
@@ -668,6 +700,10 @@ def _svd(model: Model, S: RuleResult):
                      "%s = eigenvectors, %s = %s / s; returns (u, s, v^H)" % (label, "A A^H" if wide else "A^H A", "u" if wide else "v", "v" if wide else "u",
                                                                               "A^H u" if wide else "A v"))
                 S.ok(f.fq, "%s: term comparison with the specification (domains/tensorterm.py)" % label)
+            elif tt.foreign_operators(relax(got), relax(want)):
+                S.undecided(f, rets[-1] if rets else f.node, "cannot interpret svd for %s: it uses %s, which the specification term does not"
+                            % (label, tt.foreign_operators(relax(got), relax(want))))
+                return
             else:
                 parts = ("u", "s", "vh")
                 gl, wl = (got[2:] if got[:2] == ("op", "tuple") else ()), want[2:]
@@ -719,7 +755,7 @@ def rules(model: Model, tier: str) -> List[RuleResult]:
     T = RuleResult(PROP, "C05-T", "requested pairs = first / last neig of eigh's ascending output, same slice on values and vectors, every call site", min_instances=8)
     Q = RuleResult(PROP, "C05-Q", "tallqr: Q^H M Q normalises to the identity", min_instances=3)
     D = RuleResult(PROP, "C05-D", "Davidson: Rayleigh-Ritz projection, residual with M iff given, enumerated loop exits, best-pair bookkeeping, M-orthonormalisation on every path", min_instances=9)
-    S = RuleResult(PROP, "C05-S", "svd: Gram operator / eigenvector side / other factor pairing, non-negative s, vh = v^H", min_instances=5)
+    S = RuleResult(PROP, "C05-S", "svd: Gram operator / eigenvector side / other factor pairing, non-negative s, vh = v^H", min_instances=9)
     V = RuleResult(PROP, "C05-V", "Hermiticity and shape asserted before computing; defaults", min_instances=6)
     _reduction(model, R)
     _take(model, T)
